@@ -120,6 +120,15 @@ Definition call_prog (fs : FS) (tags : list (N * N)) (x : ccall) : list act :=
   | CSaveIndex => save_prog
   end.
 
+(* the sequential model's operation of a call *)
+Definition op_of_call (x : ccall) : op :=
+  match x with
+  | CPush d c man => Push d c man
+  | CTag d r => Tag d r
+  | CUntag r => Untag r
+  | CSaveIndex => SaveIndex
+  end.
+
 Definition start (s : st) (calls : list ccall) : conf :=
   mkConf (sfs s) (stags s) (sdigs s) false (sctr s)
          (map (fun x => mkThread (call_prog (sfs s) (stags s) x) [] None false) calls).
